@@ -16,7 +16,16 @@ class C18(core.Check):
             'missing; tuples) with the rarest value / token on both sides of the 4-vs-5 boundary, in object and pandas-str '
             'dtype; each column is inferred as is, row-permuted, with an offset/permuted/duplicated/string index, and with 1-3 '
             'added missing cells; 12% of the cases are frames of 1-5 such columns through infer_df_stype. A minority family '
-            '(list first, string later) exercises the early return. Non-trivial = the column yields a type; distinct = distinct hash')
+            '(list first, string later) exercises the early return. Non-trivial = the column yields a type; distinct = distinct hash. '
+            'Hardening families: dtypes float32 / Float64 / int8 / int16 / uint8 / UInt8 / Int16 / Int32 / "string"; datetime64 '
+            'in s / ms / us units, tz-aware, sub-second; date strings with T separator, fraction, UTC offset; list elements '
+            'that are numpy.float64 objects or float64-only / float32-overflowing finite doubles (1e39, 1.7e308, 5e-324, 0.1); '
+            'sentinel look-alike categories ("-1", "nan", "None", "<NA>", "NaT" next to a word no date parser accepts), '
+            'trailing NUL, case pairs, prefixes; integers beyond 2^24; every series is inferred twice on the same object and '
+            'compared with its state before; 2.5% scale cases from the stress ladder: columns of up to 65 537 rows of every '
+            'family whose type is decided by ONE deviant cell at a chosen position (first, middle, 999-1001, 1023/1024, 2047/2048, '
+            '4096, 16 384, 32 768, last), many categories each at the 4/5 boundary, list width, cell length, tokens per cell, '
+            'frames of up to 1 025 columns; columns whose value counting is too long for the model are oracle-only')
     partial_notes = (
         'pandas supplies the dtype family and the bit "pd.to_datetime accepts the values for one of the candidate formats"; '
         'both are inputs of the model (the bit is fixed by construction of the generated column: date-formatted strings vs. a '
@@ -30,8 +39,16 @@ class C18(core.Check):
 
     # ------------------------------------------------------------------ generation
     def generate(self, rng, n, tier):
+        budget = {0: 1.0e6, 1: 6.0e6, 2: 1.0e7}[self.level]      # volume (cells x variants) the scale cases of one run may take
         for _ in range(n):
-            yield G.gen_case(rng)
+            case = G.gen_case(rng, self.level)
+            if 'scale' in case:
+                vol = G.volume(case)
+                if vol > budget:
+                    case = G.gen_case(rng, self.level, scale=False)
+                else:
+                    budget -= vol
+            yield case
 
     # ------------------------------------------------------------------ variants of a series case
     def variants(self, case):
@@ -45,25 +62,37 @@ class C18(core.Check):
 
     # ------------------------------------------------------------------ real side
     def real(self, case):
+        purity = []
         if case['kind'] == 'frame':
-            return {'frame': G.infer_frame_real(case['cols'], case['labels']),
-                    'cols': [[c['name'], G.infer_real(c['col'])] for c in case['cols']]}
-        return {k: G.infer_real(col, labels) for k, (col, labels) in self.variants(case).items()}
+            res = {'frame': G.infer_frame_real(case['cols'], case['labels'], purity),
+                   'cols': [[c['name'], G.infer_real(c['col'], None, purity)] for c in case['cols']]}
+        else:
+            res = {k: G.infer_real(col, labels, purity) for k, (col, labels) in self.variants(case).items()}
+        res['pure'] = sorted(set(purity)) or True
+        return res
 
     # ------------------------------------------------------------------ model side
     def model_requests(self, case):
+        if case.get('oracle_only'):
+            return []
         if case['kind'] == 'frame':
             return ([{'cmd': 'frame', 'cols': [{'name': c['name'], 'col': G.encode(c['col'])} for c in case['cols']]}] +
                     [{'cmd': 'series', 'col': G.encode(c['col'])} for c in case['cols']])
         return [{'cmd': 'series', 'col': G.encode(col)} for k, (col, _) in self.variants(case).items()]
 
     def model_outcome(self, case, replies):
+        if case.get('oracle_only'):
+            return core.SKIP_MODEL
         if case['kind'] == 'frame':
-            return {'frame': replies[0], 'cols': [[c['name'], r] for c, r in zip(case['cols'], replies[1:])]}
-        return dict(zip(self.variants(case).keys(), replies))
+            return {'frame': replies[0], 'cols': [[c['name'], r] for c, r in zip(case['cols'], replies[1:])], 'pure': True}
+        return dict(zip(self.variants(case).keys(), replies), pure=True)
 
     # ------------------------------------------------------------------ oracle: metamorphic + expected family
     def oracle(self, case, real):
+        if real.get('pure') is not True:
+            return core.Violation(f'purity/{"-".join(real["pure"])}', 'inference modified its input or answers differently '
+                                  'when asked again on the same object: not a function of the column\'s values', case,
+                                  True, real['pure'])
         if case['kind'] == 'frame':
             per = [[n, s] for n, s in real['cols'] if s is not None]
             if real['frame'] != per:
@@ -101,11 +130,50 @@ class C18(core.Check):
         return core.stable_hash(case) if real['base'] is not None and not str(real['base']).startswith('raises') else None
 
     def classify(self, case, real):
+        def size(what, v, labs):
+            for th in (65537, 16385, 4097, 1025, 257, 17):
+                if v >= th:
+                    labs.append(f'scale:{what}:{th}+')
+                    return
         if case['kind'] == 'frame':
-            return ['kind:frame', f'frame-cols:{len(case["cols"])}', f'frame-typed:{len(real["frame"]) if isinstance(real["frame"], list) else "raises"}']
+            labs = ['kind:frame', f'frame-cols:{min(len(case["cols"]), 6)}',
+                    f'frame-typed:{min(len(real["frame"]), 6) if isinstance(real["frame"], list) else "raises"}']
+            size('frame-columns', len(case['cols']), labs)
+            return labs
         col = case['col']
         labs = ['kind:series', f'family:{case["family"]}', f'result:{real["base"]}', f'labels:{case["labels"]}',
                 f'dtype:{col.get("dtype")}']
+        if 'scale' in case:
+            labs.append(f'scale:{case["scale"]}')
+        if case.get('oracle_only'):
+            labs.append('oracle-only')
+        size('rows', len(col['cells']), labs)
+        if len(col['cells']) >= 17:
+            size('distinct-values', G.distinct_values(col), labs)
+        for k in ('tz', 'unit', 'frac', 'npf'):
+            if col.get(k):
+                labs.append(f'container:{k}:{col[k]}')
+        if col['t'] == 'object':
+            strs = [c['s'] for c in col['cells'] if isinstance(c, dict) and 's' in c]
+            if strs:
+                size('cell-length', max(len(x) for x in strs), labs)
+            if any(x in G.LOOKALIKES for x in strs):
+                labs.append('value:sentinel-look-alike')
+            if any(x.endswith('\x00') for x in strs):
+                labs.append('value:trailing-NUL')
+            if col.get('fmt') in G.TIME_FORMATS_EXTRA:
+                labs.append(f'timefmt:{col["fmt"]}')
+            lists = [c['l'] for c in col['cells'] if isinstance(c, dict) and 'l' in c]
+            if lists:
+                size('list-width', max(len(x) for x in lists), labs)
+                if any(isinstance(e, float) and (abs(e) > 3.5e38 or e in G.F64_ONLY) for x in lists[:2000] for e in x[:50]):
+                    labs.append('value:float64-only-element')
+        elif col['t'] == 'float':
+            if any(isinstance(c, float) and c in G.F64_ONLY for c in col['cells'][:2000]):
+                labs.append('value:float64-only')
+        elif col['t'] == 'int':
+            if any(isinstance(c, int) and abs(c) > 2 ** 24 for c in col['cells'][:2000]):
+                labs.append('value:int>2^24')
         vals = [repr(c) for c in col['cells'] if c is not None]
         if vals and col['t'] in ('int', 'float', 'object'):
             from collections import Counter
@@ -113,7 +181,43 @@ class C18(core.Check):
             labs.append(f'min-count:{m if m <= 6 else "7+"}')
         if real['missing'] != real['base']:
             labs.append(f'missing-changes-result:{col["t"]}')
+        labs.append('alias:same-series-inferred-twice')
         return labs
+
+    def outside_domain(self):
+        """columns the hardening round tried and judged outside the decision table of the property (their outcome is a
+        pandas-specific parse / dtype question); what the live code answers is recorded, not judged"""
+        import logging
+        import warnings
+        import numpy as np
+        import pandas as pd
+        from torch_frame.utils.infer_stype import infer_series_stype
+
+        def run(ser):
+            with warnings.catch_warnings():
+                warnings.simplefilter('ignore')
+                logging.disable(logging.CRITICAL)
+                try:
+                    r = infer_series_stype(ser)
+                    return None if r is None else r.value
+                except Exception as e:  # noqa
+                    return f'raises:{type(e).__name__}'
+                finally:
+                    logging.disable(logging.NOTSET)
+        out = {}
+        for w in ['nan', 'NaT', 'now', 'today', '2020', '']:
+            out[f'str column of only {w!r} (pandas date parser accepts it)'] = run(pd.Series([w] * 6, dtype=object))
+        out['CategoricalDtype of strings, every category 5 times'] = run(pd.Series(['red', 'blue'] * 5, dtype='category'))
+        out['CategoricalDtype of strings, every category twice (token split raises inside)'] = \
+            run(pd.Series(['red', 'blue'] * 2, dtype='category'))
+        out['CategoricalDtype with an unused category (value_counts reports 0)'] = \
+            run(pd.Series(pd.Categorical(['red', 'blue'] * 5, categories=['red', 'blue', 'green'])))
+        out['CategoricalDtype of integers'] = run(pd.Series([1, 2] * 5, dtype='category'))
+        out['timedelta64 column'] = run(pd.Series(pd.to_timedelta([1, 2], unit='s')))
+        out['lists of numpy.float32 elements (not a float subclass)'] = \
+            run(pd.Series([[np.float32(0.5)], [np.float32(1.0)]], dtype=object))
+        out['numpy.ndarray cells'] = run(pd.Series([np.array([1.0, 2.0]), np.array([1.0, 2.0])], dtype=object))
+        return out
 
     # ------------------------------------------------------------------ exhaustive small box + logged pandas-specific families
     def extra_checks(self, rng, tier, report):
@@ -182,6 +286,17 @@ class C18(core.Check):
             except Exception as e:  # noqa
                 logged[name] = f'raises:{type(e).__name__}'
         report['extra']['logged_pandas_specific'] = logged
+        # the construction bit `parses = False` rests on: no word of the vocabulary is accepted by a candidate format
+        import pandas as pd
+        import warnings
+        from torch_frame.utils.infer_stype import _is_timestamp
+        with warnings.catch_warnings():
+            warnings.simplefilter('ignore')
+            accepted = [w for w in G.WORDS if any(_is_timestamp(pd.Series([w] * 3, dtype=dt)) for dt in (object, 'str'))]
+        if accepted:
+            report['broken'].append(f'generator invariant: words {accepted} are accepted by the live date parser')
+        report['extra']['vocabulary_not_dates'] = {'words': len(G.WORDS), 'accepted_by_date_parser': accepted}
+        report['extra']['observed_outside_generated_domain'] = self.outside_domain()
 
 
 CHECK = C18()
